@@ -315,7 +315,9 @@ UniTL == {9484, 9581} UniTR == {9488, 9582} UniBL == {9492, 9584} UniBR == {9496
 UniHz == {9472, 9476} UniSide == {9474, 9482, 9478, 9550}
 DashedCp == {126, 58, 33, 9476, 9482, 9478, 9550}
 PlainLabel(c) == (Alpha(c) \/ Digit(c)) /\ ~Drawing(c)
-BoxRowsOK(rows, b) ==
+\* plain text inside a box: letters and digits of any script, nothing with a drawing meaning, no quote, brace or blank-like character
+BoxLabel(c) == PlainLabel(c) \/ (c > 160 /\ ~Drawing(c) /\ ~IsWs(c) /\ XmlChar(c))
+BoxRowsOKc(rows, b) ==
   LET k == b.k top == b.n + 1 bot == b.n + b.h + 2 L0 == k + 1 R0 == k + b.w + 2 IN
   /\ Len(rows) = bot
   /\ \A r \in 1..b.n : rows[r] = <<>>
@@ -332,14 +334,17 @@ BoxRowsOK(rows, b) ==
      /\ \A c \in (L0 + 1)..(R0 - 1) : rows[top][c] \in hz /\ rows[bot][c] \in hz
      /\ \A r \in (top + 1)..(bot - 1) :
           /\ rows[r][L0] \in side /\ rows[r][R0] \in side
-          /\ \A c \in (L0 + 1)..(R0 - 1) : rows[r][c] = SP \/ PlainLabel(rows[r][c])
+          /\ \A c \in (L0 + 1)..(R0 - 1) : rows[r][c] \in {SP, NUL} \/ BoxLabel(rows[r][c])
      \* a side is a '|' side: it contains a '|', and every dashed character continues a vertical stroke
      /\ \A col \in {L0, R0} :
           /\ (b.h >= 1 => \E r \in (top + 1)..(bot - 1) : rows[r][col] \in {124, 9474})
           /\ \A r \in (top + 1)..(bot - 1) : rows[r][col] \in {58, 33} =>
                 (r - 1 > top /\ rows[r - 1][col] \in BoxSide) \/ (r + 1 < bot /\ rows[r + 1][col] \in BoxSide)
-BoxDashed(rows, b) == \E r \in (b.n + 1)..(b.n + b.h + 2) : \E c \in (b.k + 1)..(b.k + b.w + 2) : rows[r][c] \in DashedCp
-BoxRounded(rows, b) == rows[b.n + 1][b.k + 1] \notin {43, 9484}
+\* (checked on cell rows: a double-width label character takes two columns, the second one a filler)
+BoxRowsOK(rawrows, b) == BoxRowsOKc(CellRows(rawrows), b)
+BoxDashed(rawrows, b) == LET rows == CellRows(rawrows) IN
+                         \E r \in (b.n + 1)..(b.n + b.h + 2) : \E c \in (b.k + 1)..(b.k + b.w + 2) : rows[r][c] \in DashedCp
+BoxRounded(rawrows, b) == CellRows(rawrows)[b.n + 1][b.k + 1] \notin {43, 9484}
 C05box_OK(ev) ==
   LET b == ev.box R == { i \in Idx(ev.doc) : IsRect(ev.doc.elems[i]) } crs == DrawCells(ev) IN
   /\ ev.doc.wf = 1
